@@ -178,6 +178,9 @@ func (r Rendering) ConfigYAML(m *Module, extra map[string]any) string {
 		} else {
 			ifs := map[string]any{}
 			for _, it := range p.Ifaces {
+				if it.Alias {
+					continue // an alias is not a type of its own and cannot be listed
+				}
 				if d := r.IfaceData[IfaceKey(p, it.Name)]; len(d) > 0 {
 					ifs[it.Name] = map[string]any{"config": map[string]any{"template-data": d}}
 				} else {
@@ -204,7 +207,9 @@ func (r Rendering) ConfigYAML(m *Module, extra map[string]any) string {
 func (r Rendering) MockedInterfaces(m *Module, p *Pkg) []string {
 	var out []string
 	for _, it := range p.Ifaces {
-		out = append(out, it.Name)
+		if !it.Alias {
+			out = append(out, it.Name)
+		}
 	}
 	if r.All {
 		out = append(out, "LIface", "LGI")
